@@ -211,18 +211,42 @@ class Lexer:
                 return _as_double(int(bin_str, 2))
             # Could be 0, 0.xxx, or 0e... - fall through to decimal handling
 
+        def digits() -> None:
+            # ASCII digits, with single numeric separators between two digits
+            while True:
+                ch = self._current()
+                if ch and "0" <= ch <= "9":
+                    self._advance()
+                elif (
+                    ch == "_"
+                    and self.pos > start
+                    and "0" <= self.source[self.pos - 1] <= "9"
+                    and self._peek()
+                    and "0" <= self._peek() <= "9"
+                ):
+                    self._advance()
+                else:
+                    break
+
         # Decimal number (integer part)
-        while self._current() and self._current().isdigit():
-            self._advance()
+        digits()
+        int_part = self.source[start : self.pos]
+        if len(int_part) > 1 and int_part[0] == "0":
+            # 00, 08, 017: legacy octal-like literals are errors in strict code
+            raise JSSyntaxError(
+                "Decimal literals with a leading zero are not allowed", line, col
+            )
 
         # Decimal point; the fraction digits are optional ("5.", "1.e3"), so the
         # point always belongs to a literal that has integer digits
         is_float = False
-        if self._current() == "." and (self.pos > start or self._peek().isdigit()):
+        nxt = self._peek()
+        if self._current() == "." and (
+            self.pos > start or (nxt is not None and "0" <= nxt <= "9")
+        ):
             is_float = True
             self._advance()  # .
-            while self._current() and self._current().isdigit():
-                self._advance()
+            digits()
 
         # Exponent
         if self._current() and self._current() in "eE":
@@ -230,12 +254,12 @@ class Lexer:
             self._advance()
             if self._current() in "+-":
                 self._advance()
-            if not self._current() or not self._current().isdigit():
+            ch = self._current()
+            if not ch or not ("0" <= ch <= "9"):
                 raise JSSyntaxError("Invalid number literal", line, col)
-            while self._current() and self._current().isdigit():
-                self._advance()
+            digits()
 
-        num_str = self.source[start : self.pos]
+        num_str = self.source[start : self.pos].replace("_", "")
         if is_float:
             return float(num_str)
         if len(num_str) > 400:
@@ -271,7 +295,7 @@ class Lexer:
             return Token(TokenType.STRING, value, line, column)
 
         # Number literals
-        if ch.isdigit() or (ch == "." and self._peek().isdigit()):
+        if "0" <= ch <= "9" or (ch == "." and "0" <= (self._peek() or "") <= "9"):
             value = self._read_number()
             # "3in x" or "0b12" is no literal followed by another token
             nxt = self._current()
